@@ -9,6 +9,7 @@ git checkout -q -- . && git clean -fdq -e target
 FEAT=""
 grep -q "deser\|serde" "$DEMO" && FEAT="--features deser"
 grep -q "par_iter" "$DEMO" && FEAT="--features par_iter"
+[ -n "$DEMOFLAGS" ] && FEAT="$DEMOFLAGS"
 cp "$DEMO" indextree/tests/zz_seed_demo.rs
 if cargo test -p indextree --offline $FEAT --test zz_seed_demo >/tmp/seed_demo_orig.log 2>&1; then echo "1. demo passes on original: yes"; else echo "1. demo passes on original: NO"; tail -5 /tmp/seed_demo_orig.log; fi
 rm indextree/tests/zz_seed_demo.rs
